@@ -118,10 +118,8 @@ theorem findSelection_leaves (o : String) (tail : List Sel) : ∀ (rest : List M
   | f :: rest, h => by
     simp only [mnames, List.map_cons, List.mem_cons, not_or] at h
     have hne : (f.1 == o) = false := by simpa using fun e => h.1 e.symm
-    rw [mleaves_cons, List.cons_append, findSelection]
-    have : findSelectionSel o (Flat.leaf f.1 f.2.1) = none := by
-      simp [Flat.leaf, findSelectionSel, hne, findSelection]
-    rw [this]
+    rw [mleaves_cons, List.cons_append, Flat.leaf,
+      findSelection_skip_leaf f.1 f.1 [] [] f.2.1 [] _ o (by simpa using hne)]
     exact findSelection_leaves o tail rest (by simpa [mnames] using h.2)
 
 theorem owned_names_sub (ms : List MSpec) (u n : String) (hn : n ∈ mnames (owned ms u)) : n ∈ mnames ms := by
@@ -134,7 +132,8 @@ theorem findIP_o (h : Fam c ms A B T o fs) (i : String) (ra X : List (String × 
   have hfs : findSelection o (rootSels ms A T o fs A) = some (Flat.Qown T o fs) := by
     unfold rootSels
     rw [findSelection_leaves o _ _ (fun hm => o_not_in_ms h (owned_names_sub ms A o hm))]
-    simp [findSelection, findSelectionSel, Flat.Qown]
+    simp only [beq_self_eq_true, ↓reduceIte, Flat.Qown]
+    exact findSelection_head o o [] [] _ [] _ [] o (by simp)
   unfold findIP
   rw [hfs, lookup_append_not_mem o _ ra hra]
   simp [selType, Flat.Qown, TypeRef.isList, extractID, hid, bind, Except.bind, fmtID, Flat.pointQ]
